@@ -340,6 +340,12 @@ Theorem C13_e2e_result_props : forall p idem spec cl0 nodes down cs assign frs l
   E2ESpec.prop_last_error max (List.length nodes) down tret o frs = true.
 Proof. exact E2EResult_proofs.e2e_check13_result_props. Qed.
 
+(* ... and so does C06's frame predicate, the third extracted predicate the E13 verdicts use *)
+Theorem C13_e2e_prop_frames : forall p idem spec cl0 nodes down cs assign frs ls t0 tret margin o co,
+  E2ESpec.e2e_check13 p idem spec cl0 nodes down cs assign frs ls t0 tret margin o co = true ->
+  E2EAttempts.prop_frames p idem (option_map fst spec) (List.length nodes) frs = true.
+Proof. exact E2ESpec_proofs.e2e_check13_prop_frames. Qed.
+
 (* non-vacuity (instants in microseconds, interval 30 ms, margin 150 ms) *)
 Definition ex_fr (node arr : N) (a : E2EAttempts.answer) (d : N) :=
   E2EAttempts.mkFrame node Retry.CQuorum arr a d 0.
@@ -442,6 +448,7 @@ Example C13_ex_e2e_predicates :
   E2ESpec.final_definitive (Retry.EDbError Retry.DbInvalid) = true.
 Proof. vm_compute. repeat split; reflexivity. Qed.
 
+Print Assumptions C13_e2e_prop_frames.
 Print Assumptions C13_e2e_result_props.
 Print Assumptions C13_e2e_final_definitive.
 Print Assumptions C13_e2e_gate_model.
